@@ -308,3 +308,36 @@ func VerifC00_RaceAfterBacktrack_BAD() {
 	}()
 	wg.Wait()
 }
+
+type rwbox struct {
+	mu sync.RWMutex
+	n  int
+}
+
+func (b *rwbox) get() int      { b.mu.RLock(); defer b.mu.RUnlock(); return b.n }
+func (b *rwbox) getTwice() int { b.mu.RLock(); defer b.mu.RUnlock(); return b.n + b.get() }
+func (b *rwbox) set(v int)     { b.mu.Lock(); b.n = v; b.mu.Unlock() }
+
+// A recursive read lock deadlocks when a writer arrives between the two RLocks (Go's RWMutex lets
+// a pending writer exclude new readers).
+//
+//verif:opts preempt=sync pb=1 sched=3
+func VerifC00_RecursiveRLock_BAD() {
+	b := &rwbox{}
+	var wg sync.WaitGroup
+	wg.Add(2)
+	go func() { defer wg.Done(); _ = b.getTwice() }()
+	go func() { defer wg.Done(); b.set(1) }()
+	wg.Wait()
+}
+
+//verif:opts preempt=sync pb=1 sched=3
+func VerifC00_ReadersAndWriter_OK() {
+	b := &rwbox{}
+	var wg sync.WaitGroup
+	wg.Add(3)
+	go func() { defer wg.Done(); _ = b.get() }()
+	go func() { defer wg.Done(); _ = b.get() }()
+	go func() { defer wg.Done(); b.set(1) }()
+	wg.Wait()
+}
